@@ -24,6 +24,16 @@ def eval_args(ex, node: ast.Call, st):
 
 def do_call(ex: Exec, node: ast.Call, st: State):
     f = node.func
+    if isinstance(f, ast.Name) and f.id == "implies" and len(node.args) == 2 and "implies" not in st.env:
+        a = ex.truth(ex.eval(node.args[0], st))
+        if z3.is_false(z3.simplify(a)):
+            return VBool(True)
+        ex.guards.append(a)
+        try:
+            b = ex.truth(ex.eval(node.args[1], st))
+        finally:
+            ex.guards.pop()
+        return VBool(z3.Implies(a, b))
     if isinstance(f, ast.Attribute):
         if isinstance(f.value, ast.Call) and isinstance(f.value.func, ast.Name) and f.value.func.id == "super":
             raise OutOfReach("super() call in expression position")
@@ -116,7 +126,8 @@ def coerce(ex, v, sort, st):
             return VOpt(v.isnone, coerce(ex, v.val, sort.inner, st))
         return VOpt(z3.BoolVal(False), coerce(ex, v, sort.inner, st))
     if isinstance(sort, S.Seq) and isinstance(v, (VTup, VPyList)):
-        return ex.as_seq(v, sort.elem)
+        r = ex.as_seq(v, sort.elem)
+        return VSeq(r.term, r.elem, sort.kind)
     if sort is S.Real and isinstance(v, VNum) and v.kind == "int":
         return VNum(z3.ToReal(v.term), "real")
     return v
@@ -181,7 +192,7 @@ def apply_spec(ex, sp, args, st):
     terms = [ex.term_of(a, s) for a, s in zip(args, sp.args)]
     app = sp._z3fn(*terms)
     res = S.wrap(sp.ret, app)
-    seen = ex.ctx.__dict__.setdefault("unfolded", set())
+    seen = st.facts.unfolded
     key = app.get_id()
     if not sp.opaque and ex.unfold_depth < ex.max_unfold and key not in seen:
         seen.add(key)
